@@ -309,14 +309,16 @@ def maxlen_stream(rng, reps=8):
     stored_block(bw, [], True)
     return bw.done()
 
-def too_far_stream(rng):
-    """a single unambiguous look-back fault: a match whose distance exceeds the bytes produced so far"""
+def too_far_stream(rng, nlit=3, mlen=3, over=1):
+    """a single unambiguous look-back fault: a match whose distance exceeds the bytes produced so far (nlit literals, then a match of
+    length mlen at distance nlit + over)"""
     bw = BitWriter()
     llc, dc = canon(FIXED_LL), canon(FIXED_D)
     bw.bits(1, 1); bw.bits(1, 2)
-    for b in (65, 66, 67): bw.code(llc[b], 8)
-    s = len_sym(3); bw.code(llc[257 + s], FIXED_LL[257 + s])
-    ds = dist_sym(4); bw.code(dc[ds], 5); bw.bits(4 - DIST_BASE[ds], DIST_EXTRA[ds])     # distance 4 with only 3 bytes of history
+    for i in range(nlit): bw.code(llc[65 + i % 26], 8)
+    s = len_sym(mlen); bw.code(llc[257 + s], FIXED_LL[257 + s]); bw.bits(mlen - LEN_BASE[s], LEN_EXTRA[s])
+    d = nlit + over
+    ds = dist_sym(d); bw.code(dc[ds], 5); bw.bits(d - DIST_BASE[ds], DIST_EXTRA[ds])     # distance reaching `over` bytes before the start of the output
     bw.code(llc[256], 7)
     return bw.done()
 
